@@ -372,6 +372,10 @@ func (e *Evaluator) stmt(n *Node, env *scope) (interface{}, error) {
 		if err != nil {
 			return nil, err
 		}
+		if isContainer(v) {
+			e.Exceeded = true
+			return nil, errf("reference: container stored into a container element")
+		}
 		cur := obj
 		for _, p := range parts[1 : len(parts)-1] {
 			nx, ok := cur[p]
@@ -411,12 +415,22 @@ func (e *Evaluator) stmt(n *Node, env *scope) (interface{}, error) {
 				if idx < 0 || int(idx) >= len(cc) {
 					return nil, errf("array index out of bounds")
 				}
+				if isContainer(v) {
+					// storing a container inside a container: whether the two then share
+					// storage (and whether a value may contain itself) is not defined anywhere
+					e.Exceeded = true
+					return nil, errf("reference: container stored into a container element")
+				}
 				cc[idx] = v
 				return v, nil
 			case map[string]interface{}:
 				k, ok := iv.(string)
 				if !ok {
 					return nil, errf("map key must be a string")
+				}
+				if isContainer(v) {
+					e.Exceeded = true
+					return nil, errf("reference: container stored into a container element")
 				}
 				cc[k] = v
 				return v, nil
@@ -430,6 +444,10 @@ func (e *Evaluator) stmt(n *Node, env *scope) (interface{}, error) {
 			om, ok := o.(map[string]interface{})
 			if !ok {
 				return nil, errf("cannot assign field on non-object")
+			}
+			if isContainer(v) {
+				e.Exceeded = true
+				return nil, errf("reference: container stored into a container element")
 			}
 			om[t.S] = v
 			return v, nil
@@ -1200,6 +1218,14 @@ func (e *Evaluator) call(n *Node, env *scope) (interface{}, error) {
 		return nil, errf("return type mismatch in function %s", f.Name)
 	}
 	return res, nil
+}
+
+func isContainer(v interface{}) bool {
+	switch v.(type) {
+	case []interface{}, map[string]interface{}:
+		return true
+	}
+	return false
 }
 
 type builtin struct {
